@@ -193,7 +193,9 @@ CR_POOL = ["\r", "\r\n", "a\rb"]
 TEXT_POOL = ["a", "b", " ", "\n", "\t", "&", "<", ">", "\"", "'", "]]>", "&amp;", "&#13;", "é",
              " ", "\U0001f600", "﻿", "�", "x", "-", "--", "?", "?>", "=", "/", ";", "#"]
 COMMENTS = ["c", " a comment ", "", "a-b", "a--b", "a>b", "<!--", "a<b&c", "é", "x-", "a--!b", "\r", "]]>", "a\nb"]
-PIS = [("t", "d"), ("t", ""), ("xml-x", "a=\"1\""), ("t", "a>b"), ("é", "é d"), ("t", "<x>&y;")]
+PIS = [("t", "d"), ("t", ""), ("xml-x", "a=\"1\""), ("t", "a>b"), ("é", "é d"), ("t", "<x>&y;"),
+       # a '?' inside the data is data (only "?>" ends the instruction)
+       ("t", "a?b"), ("t", "?"), ("t", "a?"), ("t", "? x"), ("t", "??"), ("php", "$a ? $b > 1 : 0"), ("t", "a? >")]
 
 
 def rand_text(rng, maxlen=5):
